@@ -203,6 +203,9 @@ def audit(raw, where="", sig="C06"):
             problems.append(f"uuid {uid} used by two objects: {by_uuid[uid]} and {(owner, ep)}")
         by_uuid[uid] = (owner, ep)
     for uid, (owner, ep) in by_uuid.items():
+        if owner not in nodes:
+            problems.append(f"metadata object {ep}={uid} is stored for {owner}, which does not exist")
+            continue
         if uid not in links:
             problems.append(f"attached object {ep}={uid} at {owner} has no TOC link")
         else:
